@@ -1,6 +1,6 @@
 import sys, re, time, threading
 sys.setrecursionlimit(1000000); threading.stack_size(1024*1024*1024)
-import mirsym0 as M
+import mirsym_prototype as M
 import z3
 def m_false(ex, p, c, a, t, k): k(p, z3.BoolVal(False))
 def scan(path, pats):
